@@ -8,6 +8,7 @@ import itertools
 import multiprocessing
 import os
 import pathlib
+import pickle
 import shutil
 import tempfile
 import threading
@@ -346,7 +347,10 @@ def drive_history(job: dict) -> dict:
     filled = False
     try:
         for i, op in enumerate(job['ops']):
-            if op == 'tick':
+            if op == 'pickle':  # the selector is shipped: from here on the unpickled copy serves
+                strategy = pickle.loads(pickle.dumps(strategy))
+                obs.append('-')
+            elif op == 'tick':
                 if dirty and job['kind'] == 'latest':
                     canary.wait(2)
                     dirty = False
@@ -465,17 +469,21 @@ class C17(fw.Check):
             ([2, None], 4), ([None, None], 1), ([None, None, None], 1), ([1, 2, None], 8), ([7, 1, 1, 1], 1),
             ([1, 2, 3, 4, 5, 6], 1), ([5, None, 3], 8), ([8, None], 8), ([9, None], 8), ([None, 7], 8), ([None, 3], 1),
             ([1, None, 4], 8), ([None, None, 1], 4), ([None, 6, None, 1], 8), ([None, 5], 1), ([None, 1, 2], 1),
+            # an omitted target whose implicit share is the largest one, k >= 3, in every position
+            ([None, 1, 1, 1, 1], 16), ([1, None, 1], 8), ([1, 2, None], 16), ([3, 1, None, 2], 32), ([1, 1, None, 1, 1, 1], 64),
         ]
         cases.extend(corpus)
         nrand = self.n(150, 1500)
         for _ in range(nrand):
             k = rng.choice([2, 2, 3, 3, 4, 5, 6])
-            style = rng.choice(['int', 'int', 'dyadic', 'mixed-none', 'mixed-none', 'ties'])
+            style = rng.choice(['int', 'int', 'dyadic', 'mixed-none', 'mixed-none', 'ties', 'none-dominant'])
             if style == 'int':
                 ts, d = [rng.randint(1, 12) for _ in range(k)], 1
             elif style == 'ties':
                 base = rng.randint(1, 5)
                 ts, d = [rng.choice([base, base, rng.randint(1, 6)]) for _ in range(k)], 1
+            elif style == 'none-dominant':
+                ts, d = self._gen_none_dominant(rng, max(k, 3))
             elif style == 'dyadic':
                 d = rng.choice([2, 4, 8, 16, 64])
                 ts = [rng.randint(1, d) for _ in range(k)]
@@ -492,6 +500,14 @@ class C17(fw.Check):
                 for ts in itertools.product(range(1, 7 if k < 4 else 5), repeat=k):
                     cases.append((list(ts), 1))
         return cases
+
+    @staticmethod
+    def _gen_none_dominant(rng, k):
+        """k >= 3 variants, one target omitted, the given ones small: the implicit share (complement rule) is the largest."""
+        d = rng.choice([16, 32, 64])
+        ts = [rng.randint(1, max(1, d // (2 * k))) for _ in range(k)]
+        ts[rng.randrange(k)] = None
+        return ts, d
 
     @staticmethod
     def _float_exact(ts, d) -> bool:
@@ -533,7 +549,10 @@ class C17(fw.Check):
             if i < len(values):
                 builder = builder.over(g, **kwargs)
             else:
-                return builder.against(g, **kwargs), directory
+                ab = builder.against(g, **kwargs)
+                if sum(c[0] for c in coords) % 2:  # every other variant set is served by an unpickled copy of the selector
+                    ab = pickle.loads(pickle.dumps(ab))
+                return ab, directory
         raise AssertionError('at least two variants')
 
     def _run_abtest(self, ts, d, n, coords=None):
@@ -598,7 +617,10 @@ class C17(fw.Check):
                              f'requests: {float(dev):.3f} ahead of its share', 'abtest-upper-bound',
                              {'n': n, 'variant': v, 'count': counts[v], 'share': str(shares[v])})]
                 if dev < -1 - EPS:
-                    sig = SIG_F1 if k >= 3 and dev > -(k - 1) else 'abtest-lower-bound'
+                    # C17-F1 is about variants scanned after another one; the variant with the single largest share is
+                    # served whenever it is behind (Lean: C17_lower_dominant), so it is held to 'within one request'
+                    dominant = all(shares[v] > shares[u] + F(1, 10**6) for u in range(k) if u != v)
+                    sig = SIG_F1 if k >= 3 and dev > -(k - 1) and not dominant else 'abtest-lower-bound'
                     return [(f'variant #{v} (target share {float(shares[v]):.4f}) was selected {counts[v]} times in {n} '
                              f'requests: {float(-dev):.3f} behind its share (k={k})', sig,
                              {'n': n, 'variant': v, 'k': k, 'count': counts[v], 'share': str(shares[v])})]
@@ -788,6 +810,8 @@ class C17(fw.Check):
             content = {'p': {versions[r]: list(gs) for r, gs in self.rng.sample(rels, len(rels))}}
             directory = asset.Directory(Double(content))
             strategy = application.Latest('p', None if cfg is None else versions[cfg], refresh=3600)
+            if len(content['p']) % 2:
+                strategy = pickle.loads(pickle.dumps(strategy))
             try:
                 inst = strategy.select(directory, None, None)
                 _, rel, gen = _ident(inst)
@@ -827,12 +851,14 @@ class C17(fw.Check):
             next(e for e in rels0 if e[0] == cfg)[1] = []
         else:
             cfg = rng.choice([r for r in range(len(VERSIONS)) if r not in idx])
-        ops = []
+        self._hist_no = getattr(self, '_hist_no', 0) + 1
+        # every other history is served by a selector that went through pickle.loads(pickle.dumps(..)) (once or twice)
+        ops = ['pickle'] * rng.choice([1, 1, 2]) if self._hist_no % 2 else []
 
         def known():
             rels = [[r, list(gs)] for r, gs in rels0]
             for op in ops:
-                if op != 'tick' and op[0] in ('publish', 'commit'):
+                if op not in ('tick', 'pickle') and op[0] in ('publish', 'commit'):
                     apply_registry_op(rels, op)
             return rels
 
@@ -884,7 +910,9 @@ class C17(fw.Check):
 
     @staticmethod
     def _model_history(survive, cfg, rels0, ops):
-        return sexp.dumps(['lhist', survive, cfg, rels0, ops])
+        # a pickle round-trip before the first request is the identity on the constructor parameters
+        # (Lean: C17_reduce_rebuild / C17_latest_rebuilt): the model runs the same history without it
+        return sexp.dumps(['lhist', survive, cfg, rels0, ['tick' if o == 'pickle' else o for o in ops]])
 
     def _judge_history(self, cfg, rels0, ops, model_obs, result):
         """Compare one driven history with the model and evaluate the property on it.
@@ -896,7 +924,7 @@ class C17(fw.Check):
         outlived = 0
         faulted = []
         for i, (op, got) in enumerate(zip(ops, result['obs'])):
-            if op == 'tick':
+            if op in ('tick', 'pickle'):
                 continue
             if op[0] in ('publish', 'commit'):
                 apply_registry_op(rels, op)
@@ -976,7 +1004,9 @@ class C17(fw.Check):
             cands = []
             for i in range(len(ops)):
                 cand = ops[:i] + ops[i + 1:]
-                if any(o != 'tick' and o[0] == 'select' and o[1] for o in cand):
+                if ops[i] == 'pickle' and 'pickle' not in cand:
+                    continue  # the served selector stays an unpickled one
+                if any(o not in ('tick', 'pickle') and o[0] == 'select' and o[1] for o in cand):
                     cands.append((cfg, rels0, cand))
             for i in range(len(rels0)):
                 if rels0[i][0] != cfg and len(rels0) > 1:
@@ -1010,6 +1040,11 @@ class C17(fw.Check):
                 (None, [[1, [1, 2]]], ['tick', ['select', True], 'tick', ['publish', 3], ['commit', 3], 'tick', ['select', True],
                                       ['commit', 1], 'tick', ['select', True]]),
                 (None, [[2, []]], ['tick', ['select', True], 'tick', ['commit', 2], 'tick', ['select', True]]),
+                # the same through a pickle round-trip of the selector (configured release and refresh interval survive)
+                (None, [[1, [1]], [2, []]], ['pickle', 'tick', ['select', True], 'tick', ['commit', 2], 'tick', ['select', True]]),
+                (1, [[1, [1]], [2, [1]]], ['pickle', 'tick', ['select', True], 'tick', ['commit', 1], 'tick', ['select', True],
+                                          ['commit', 2], 'tick', ['select', True]]),
+                (None, [[1, [1, 2]]], ['pickle', 'pickle', 'tick', ['select', True], 'tick', ['commit', 1], 'tick', ['select', True]]),
             ]
             for kind in FAULTS:  # one transient fault under the refresher, then a commit: picked up all the same
                 cases.append((None, [[1, [1]], [2, []]], ['tick', ['select', True], 'tick', ['fault', kind], 'tick', ['commit', 2],
@@ -1034,8 +1069,8 @@ class C17(fw.Check):
 
         for (cfg, rels0, ops), (mobs, res) in driven():
             shaped = f2_shaped(cfg, rels0, ops)
-            nsel = sum(1 for o in ops if o != 'tick' and o[0] == 'select')
-            ncommit = sum(1 for o in ops if o != 'tick' and o[0] == 'commit')
+            nsel = sum(1 for o in ops if o not in ('tick', 'pickle') and o[0] == 'select')
+            ncommit = sum(1 for o in ops if o not in ('tick', 'pickle') and o[0] == 'commit')
             cfgkind = 'none' if cfg is None else 'empty/unpublished-at-first-use' if shaped else 'configured'
             self.case(('lhist', cfg, repr(rels0), repr(ops)), f'latest history cfg={cfgkind}', nontrivial=nsel > 1 and ncommit > 0,
                       sample={'configured': cfg, 'releases': rels0, 'ops': ops, 'observed': res['obs']})
@@ -1063,14 +1098,16 @@ class C17(fw.Check):
             rels0 = [[r, list(range(1, self.rng.randint(0, 3) + 1))] for r in idx]
             r = self.rng.choice(idx + [self.rng.randrange(len(VERSIONS))])
             g = self.rng.randint(1, 4)
-            ops = []
+            ops = ['pickle'] if len(cases) % 2 else []
             for _ in range(self.rng.randint(2, 7)):
                 ops.append(self.rng.choice(['select', 'select', ['commit', r], ['commit', self.rng.randrange(len(VERSIONS))],
                                             ['publish', self.rng.randrange(len(VERSIONS))]]))
             ops.append('select')
             cases.append((r, g, rels0, ops))
-        answers = [sexp.num(sexp.loads(a)) for a in self.model([sexp.dumps(['ehist', r, g, rels0, ops])
+        answers = [sexp.num(sexp.loads(a)) for a in self.model([sexp.dumps(['ehist', r, g, rels0, [o for o in ops if o != 'pickle']])
                                                                    for r, g, rels0, ops in cases])]
+        answers = [[m[0], (['-'] if ops[0] == 'pickle' else []) + m[1]] if m[0] == 'ok' else m
+                   for m, (_, _, _, ops) in zip(answers, cases)]
         results = self._pool_map([{'kind': 'explicit', 'cfg': [r, g], 'rels0': rels0, 'ops': ops} for r, g, rels0, ops in cases])
         for (r, g, rels0, ops), m, res in zip(cases, answers, results):
             self.case(('explicit', r, g, repr(rels0), repr(ops)), 'explicit history', nontrivial=len(ops) > 2,
@@ -1150,6 +1187,18 @@ class C17(fw.Check):
                 values = [None if t is None else (t if d == 1 else t / d) for t in cand]
                 self._report_abtest('abtest', cand, d, values, 600, self._check_values(values, 600, coords), coords)
         self.notes.append(f'failing-input search ({reason}): {len(tried)} neighbouring weight vectors x 600 requests')
+        if seeds and not any(v.signature.startswith('abtest-') and v.signature != SIG_F1 for v in self.violations):
+            # variant sets whose largest share is an implicit one (omitted target), judged on every short prefix
+            for _ in range(200):
+                k = self.rng.choice([3, 3, 4, 5, 6])
+                ts, d = self._gen_none_dominant(self.rng, k)
+                values = [None if t is None else t / d for t in ts]
+                coords = gen_coords(self.rng, k, duplicates=False) if self.rng.random() < 0.5 else default_coords(k)
+                found = self._check_values(values, 40, coords)
+                self._report_abtest('abtest', ts, d, values, 40, found, coords)
+                if any(sig != SIG_F1 for _, sig, _ in found):
+                    break
+            self.notes.append(f'failing-input search ({reason}): variant sets with a dominating omitted target x 40 requests')
         builder = [d.case for d in self.divergences if d.what.startswith(('ABTest.Builder', 'ABTest builder'))]
         for c in builder[:10]:  # the builder diverged: serve requests from the declared set until the wrong model shows
             d = c.get('den', 1)
